@@ -61,7 +61,10 @@ Inductive hresp :=
    sender without sending; HNone = the event carries no handshake *)
 Inductive handshake := HNone | HAccepted | HRefused.
 
-Record response := mk_resp { r_hs : handshake; r_resp : hresp }.
+(* [r_unit]: the one unit handle_event itself sends RunUnitRequest::OtherCancel to on its own request
+   channel (a unicast, as opposed to the broadcasts DispatcherContext::run makes for [r_resp]) *)
+Record response := mk_response { r_hs : handshake; r_resp : hresp; r_unit : option tid }.
+Definition mk_resp (h : handshake) (r : hresp) : response := mk_response h r None.
 
 (* what DispatcherContext::run broadcasts to every live unit for a response *)
 Inductive broadcast :=
@@ -227,8 +230,12 @@ Definition dstep_live (d : dstate) (e : devent) : dst * list revent * response :
       match lookup t (d_running d) with
       | None => (Panicked, [], no_resp)          (* existing_test: expect *)
       | Some past =>
+          (* while the run is being cancelled the request is repeated to this unit, so that it
+             does not sit out the retry delay (it may have consumed and ignored the broadcast
+             while its process was running) *)
           (Live (set_running d (update_key t (past ++ [a]) (d_running d))),
-           [ETestAttemptFailedWillRetry t a], no_resp)
+           [ETestAttemptFailedWillRetry t a],
+           mk_response HNone RNone (if is_some (d_cancel d) then Some t else None))
       end
   | RetryStarted t no total =>
       if is_some (d_cancel d) then (Live d, [], mk_resp HRefused RNone)
